@@ -3,13 +3,24 @@
 //!
 //!   vharness gen  <prop> --seed N --tier quick|thorough --out FILE
 //!   vharness exec --in FILE --out FILE        (re-executes the op lines of FILE)
+//!   vharness worker                           (internal: op executor under a watchdog)
 //!
 //! Output format: every op line is followed by one observation line `= ...`.
+//! An observation may end in ` | key=value ...`: measurements that are not compared
+//! with the model (time, allocation) but are visible to the monitors.
+mod alloc;
+mod c01;
 mod c16;
+mod wirefmt;
 mod util;
+mod worker;
 
 use std::io::{BufRead, Write};
+use std::time::Duration;
 use util::*;
+
+#[global_allocator]
+static GLOBAL: alloc::Counting = alloc::Counting;
 
 /// Executes one op line on the real code.  `None` = the op line is malformed.
 pub fn exec_line(line: &str) -> Option<String> {
@@ -18,6 +29,9 @@ pub fn exec_line(line: &str) -> Option<String> {
     if op.starts_with("txt-") {
         return c16::exec(op, &mut t);
     }
+    if op == "decode" {
+        return c01::exec(op, &mut t);
+    }
     None
 }
 
@@ -25,11 +39,14 @@ fn arg(args: &[String], name: &str) -> Option<String> {
     args.iter().position(|a| a == name).and_then(|i| args.get(i + 1).cloned())
 }
 
+const OP_TIMEOUT: Duration = Duration::from_secs(4);
+
 fn main() {
     std::panic::set_hook(Box::new(|_| {}));
     let args: Vec<String> = std::env::args().collect();
     let mode = args.get(1).map(String::as_str).unwrap_or("");
     match mode {
+        "worker" => worker::worker_main(),
         "gen" => {
             let prop = args.get(2).expect("property id").clone();
             let seed: u64 = arg(&args, "--seed").and_then(|s| s.parse().ok()).unwrap_or(1);
@@ -38,15 +55,12 @@ fn main() {
             let mut w = std::io::BufWriter::new(std::fs::File::create(out).unwrap());
             let mut rng = Rng::new(seed);
             let mut bad = 0u64;
+            let mut wk = worker::Worker::new();
+            let mut lines: Vec<String> = Vec::new();
             {
-                let mut emit = |line: String| match exec_line(&line) {
-                    Some(obs) => {
-                        writeln!(w, "{}", line).unwrap();
-                        writeln!(w, "= {}", obs).unwrap();
-                    }
-                    None => bad += 1,
-                };
+                let mut emit = |line: String| lines.push(line);
                 match prop.as_str() {
+                    "C01" => c01::generate(&mut rng, &tier, &mut emit),
                     "C16" => c16::generate(&mut rng, &tier, &mut emit),
                     _ => {
                         eprintln!("unknown property {}", prop);
@@ -54,6 +68,14 @@ fn main() {
                     }
                 }
             }
+            wk.exec_all(&lines, OP_TIMEOUT, |line, obs| {
+                if obs == "bad-op" {
+                    bad += 1;
+                } else {
+                    writeln!(w, "{}", line).unwrap();
+                    writeln!(w, "= {}", obs).unwrap();
+                }
+            });
             w.flush().unwrap();
             if bad > 0 {
                 eprintln!("harness: {} generated op lines were not executable", bad);
@@ -65,17 +87,16 @@ fn main() {
             let out = arg(&args, "--out").expect("--out");
             let mut w = std::io::BufWriter::new(std::fs::File::create(out).unwrap());
             let f = std::io::BufReader::new(std::fs::File::open(inp).unwrap());
-            for line in f.lines() {
-                let line = line.unwrap();
-                if line.starts_with('=') || line.starts_with('#') || line.trim().is_empty() {
-                    continue;
-                }
+            let mut wk = worker::Worker::new();
+            let lines: Vec<String> = f
+                .lines()
+                .map(|l| l.unwrap())
+                .filter(|l| !(l.starts_with('=') || l.starts_with('#') || l.trim().is_empty()))
+                .collect();
+            wk.exec_all(&lines, OP_TIMEOUT, |line, obs| {
                 writeln!(w, "{}", line).unwrap();
-                match exec_line(&line) {
-                    Some(obs) => writeln!(w, "= {}", obs).unwrap(),
-                    None => writeln!(w, "= bad-op").unwrap(),
-                }
-            }
+                writeln!(w, "= {}", obs).unwrap();
+            });
             w.flush().unwrap();
         }
         _ => {
